@@ -169,24 +169,24 @@ func (g *gen) str(max int) string {
 
 // arbitrary valid-UTF-8 field content: empty, short, unicode, long, 64 KiB
 func (g *gen) field() string {
-	switch k := g.r.Intn(20); {
-	case k < 3:
+	switch k := g.r.Intn(40); {
+	case k < 6:
 		return ""
-	case k < 12:
+	case k < 24:
 		return g.str(24)
-	case k < 14:
+	case k < 31:
 		return g.validAddr()
-	case k < 16:
+	case k < 35:
 		parts := []string{"\u00e9", "\u65e5\u672c", " ", "\u00a0", "\x00", "\n", "\"", "\\", "\U0001F331", "a", "\u2003"}
 		var sb strings.Builder
 		for i, n := 0, g.r.Range(1, 8); i < n; i++ {
 			sb.WriteString(parts[g.r.Intn(len(parts))])
 		}
 		return sb.String()
-	case k < 18:
+	case k < 38:
 		return g.str(300)
-	case k < 19:
-		return strings.Repeat(g.str(7)+"x", g.r.Range(16, 200))
+	case k < 39:
+		return strings.Repeat(g.str(7)+"x", g.r.Range(16, 100))
 	default:
 		if g.big {
 			g.big = false
@@ -227,11 +227,11 @@ func (g *gen) coin() sdk.Coin {
 
 func (g *gen) coins() sdk.Coins {
 	var n int
-	switch g.r.Intn(6) {
-	case 0:
+	switch g.r.Intn(10) {
+	case 0, 1:
 		n = 0
-	case 1:
-		n = g.r.Range(20, 300) // many coins
+	case 2:
+		n = g.r.Range(20, 150) // many coins
 	default:
 		n = g.r.Range(1, 4)
 	}
@@ -438,21 +438,21 @@ func (g *gen) owner(tc *testCase) {
 	case k < 24:
 		tc.owner = g.spaces(0, 2) + g.validAddr() + g.spaces(0, 2)
 		tc.shapes = append(tc.shapes, "owner:bech32_with_spaces")
-	case k < 26:
+	case k < 25:
 		tc.owner = ""
 		tc.shapes = append(tc.shapes, "owner:empty")
-	case k < 30:
+	case k < 28:
 		tc.owner = g.spaces(1, 6)
 		tc.shapes = append(tc.shapes, "owner:whitespace_only")
-	case k < 33:
+	case k < 31:
 		// whitespace mixed with a near-space sequence: must NOT be blank
 		tc.owner = g.spaces(0, 3) + nearSpace[g.r.Intn(len(nearSpace))] + g.spaces(0, 3)
 		tc.shapes = append(tc.shapes, "owner:near_blank")
-	case k < 35:
+	case k < 33:
 		a := g.validAddr()
 		tc.owner = flipCase(a, g.r.Intn(len(a)))
 		tc.shapes = append(tc.shapes, "owner:bech32_corrupted")
-	case k < 36:
+	case k < 34:
 		// valid bech32 with a foreign prefix
 		bz := g.r.Bytes(20)
 		s, err := sdk.Bech32ifyAddressBytes("cosmos", bz)
@@ -463,7 +463,7 @@ func (g *gen) owner(tc *testCase) {
 		tc.owner = g.str(40)
 		tc.shapes = append(tc.shapes, "owner:random_text")
 	default:
-		tc.owner = g.str(3000)
+		tc.owner = g.str(1200)
 		tc.shapes = append(tc.shapes, "owner:long_text")
 	}
 }
@@ -543,7 +543,7 @@ func wantCapPath(port, channel string) string {
 
 func (g *gen) randomCase() *testCase {
 	tc := &testCase{label: "random"}
-	g.big = g.r.Chance(1, 60)
+	g.big = g.r.Chance(1, 100)
 	g.owner(tc)
 	tc.conn = g.connID()
 	g.inner(tc)
@@ -551,7 +551,7 @@ func (g *gen) randomCase() *testCase {
 
 	// fake configuration: usually keyed for this very (connection, owner); sometimes for a neighbour
 	tc.keyConn, tc.keyPort = tc.conn, wantPort(tc.owner)
-	switch k := g.r.Intn(16); {
+	switch k := g.r.Intn(24); {
 	case k < 2:
 		v, how := g.variant(tc.owner)
 		tc.keyPort = wantPort(v)
@@ -564,10 +564,10 @@ func (g *gen) randomCase() *testCase {
 		tc.keyPort = tc.owner // port without the prefix
 		tc.shapes = append(tc.shapes, "chan_key:unprefixed_port")
 	}
-	tc.hasChan = !g.r.Chance(1, 5)
+	tc.hasChan = !g.r.Chance(1, 8)
 	tc.chanID = g.channelID()
 	tc.capKey = wantCapPath(tc.keyPort, tc.chanID)
-	switch k := g.r.Intn(16); {
+	switch k := g.r.Intn(24); {
 	case k < 1:
 		tc.capKey = wantCapPath(tc.keyPort, tc.chanID+"0")
 		tc.shapes = append(tc.shapes, "cap_key:other_channel")
@@ -579,7 +579,7 @@ func (g *gen) randomCase() *testCase {
 		tc.capKey = "ports/" + tc.keyPort + "/channels/" + tc.chanID
 		tc.shapes = append(tc.shapes, "cap_key:port_path_only")
 	}
-	tc.hasCap = !g.r.Chance(1, 5)
+	tc.hasCap = !g.r.Chance(1, 8)
 	tc.capIdx = g.r.Uint64() >> uint(g.r.Intn(64))
 	tc.sendOK = !g.r.Chance(1, 10)
 	return tc
@@ -759,23 +759,38 @@ func classifySubmit(tc *testCase, o *outcome) string {
 
 // ---------- Coq printing ----------
 
-// coqBytes prints a byte string compactly: printable ASCII as (b "..."), anything else as
-// (hx "<hex>") (decoded by Regen.Cases.IntertxRun.hx); long strings as a concatenation of chunks,
-// because Coq's parser overflows its stack on very long literals.
+// coqBytes prints a byte string compactly: short printable ASCII as (b "..."), other short strings as
+// (hx "<hex>"), long ones as (u63 <len> [<7 bytes per primitive int, big-endian, zero padded>]), in chunks
+// (Coq's parser overflows its stack on very long literals and elaborates string literals slowly).
+// hx and u63 are decoded by Regen.Cases.IntertxRun.
 func coqChunk(s []byte) string {
 	if len(s) == 0 {
 		return "[]"
 	}
-	for _, c := range s {
-		if c < 0x20 || c > 0x7e || c == '"' {
-			return "(hx \"" + hex.EncodeToString(s) + "\")"
+	if len(s) <= 48 {
+		for _, c := range s {
+			if c < 0x20 || c > 0x7e || c == '"' {
+				return "(hx \"" + hex.EncodeToString(s) + "\")"
+			}
 		}
+		return common.CoqBytes(s)
 	}
-	return common.CoqBytes(s)
+	var sb strings.Builder
+	fmt.Fprintf(&sb, "(u63 %d%%N [", len(s))
+	for i := 0; i < len(s); i += 7 {
+		var grp [7]byte
+		copy(grp[:], s[i:])
+		if i > 0 {
+			sb.WriteString(";")
+		}
+		sb.WriteString("0x" + hex.EncodeToString(grp[:]))
+	}
+	sb.WriteString("]%uint63)")
+	return sb.String()
 }
 
 func coqBytes(s []byte) string {
-	const chunk = 1536
+	const chunk = 7 * 512
 	if len(s) <= chunk {
 		return coqChunk(s)
 	}
@@ -1088,7 +1103,7 @@ func main() {
 	g := &gen{r: rng.Fork(), ir: ir, cdc: cdc}
 	mon := &monitors{cdc: cdc, seen: map[string]bool{}, portOwner: map[string]string{}, stats: map[string]int{}}
 	w := &common.ShardWriter{Dir: *out, RunMod: "Regen.Cases.IntertxRun", CaseType: "intertx_case", PerShard: 500,
-		Preamble: "Require Import Regen.Intertx.ProtoWire Regen.Intertx.SubmitTx.\n"}
+		Preamble: "From Coq Require Import Uint63.\nRequire Import Regen.Intertx.ProtoWire Regen.Intertx.SubmitTx.\n"}
 
 	hist := map[string]int{}
 	descs := map[string]interface{}{}
